@@ -5,6 +5,8 @@ import NibabelModel.Lemmas.C08_Tck
 import NibabelModel.Lemmas.C08_Ext
 import NibabelModel.Lemmas.C08_TckHdr
 import NibabelModel.Lemmas.C08_TckChunk
+import NibabelModel.Lemmas.C08_PerRead
+import NibabelModel.Lemmas.C08_Xml
 import NibabelModel.Generated.C08
 /-! Props/C08 — the property theorems for C08 (a truncated file is never read back as different data). -/
 namespace Nb.C08
@@ -189,7 +191,9 @@ theorem single_strict_prefix (fmt : VolFmt) (img : Img) (wf : img.WF fmt) (hf : 
 /-- **cifti_prefix.**  CIFTI-2 (`.dscalar.nii` …: NIfTI-2 single file, XML header in the first
     extension, parsed by expat under the contract of `xmlRead`, matrix = NIfTI data at the end of the
     file): every strict prefix raises — a cut inside the XML extension is refused by the NIfTI
-    extension reader before expat sees it, a cut behind it by the data length check. -/
+    extension reader before expat sees it, a cut behind it by the data length check.
+    NOTE: the proof uses only `single_strict_prefix` (the NIfTI-2 container); the XML inside the extension is
+    never reached by a truncated file, so nothing about expat is needed or claimed here. -/
 theorem cifti_prefix (fmt : VolFmt) (img : Img) (wf : img.WF fmt) (hf : img.footer = [])
     (hd : img.data ≠ []) (um : Bool) (xmlLen : Nat) (m : Nat) (st : Bool)
     (hm : m < (writeSingle fmt img).length) :
@@ -610,7 +614,10 @@ example : tckReadB 24 (Src.plain (tckWrite tckEx)) = .ok tckEx.streams ∧
 /-! ### XML formats: through the expat contract only -/
 
 /-- **xml_prefix.**  Under the expat contract written into `xmlRead` ("a document lacking its root end
-    tag raises"), every strict prefix of a document that ends with its root end tag raises. -/
+    tag raises"), every strict prefix of a document that ends with its root end tag raises.
+    NOTE: this only restates the `if bytes < rootEnd then error` of `xmlRead` — GIFTI / CIFTI-2 XML truncation
+    safety is an ASSUMPTION about expat, not a result; what is proved about nibabel's side (the block loop with
+    its closing final call) is `xml_driver_prefix` below. -/
 theorem xml_prefix (doc : Bytes) (m : Nat) (st : Bool) (hm : m < doc.length) :
     ∃ e, xmlRead doc.length ⟨doc.take m, st⟩ = .error e := by
   unfold xmlRead Src.readAll
@@ -618,6 +625,101 @@ theorem xml_prefix (doc : Bytes) (m : Nat) (st : Bool) (hm : m < doc.length) :
   · simp only [Bool.false_eq_true, if_false, List.drop_zero, List.length_take]
     rw [if_pos (by omega)]; exact ⟨_, rfl⟩
   · exact ⟨_, rfl⟩
+
+/-! ### per-read end-of-stream behaviour (a decompressor that hands out a short read once and raises later) -/
+
+/-- **volume_prefix_per_read.**  `volume_prefix` with the end-of-stream behaviour decided PER READ: the opened
+    file holds the first `m` bytes of the written file and every single request `seek; read(n)` of the reader
+    (sniff, header block, extender, each extension head and content, data, footer) independently either
+    delivers exactly the available part or raises (`ReadsOf`; it may raise at any time).  Loading + reading
+    raises or returns exactly the written data, the latter only if the prefix contains all the data.
+    (`readSingleG … s.bytes s.read = readSingle … s`: `readSingleG_inst`; the two pure behaviours of `Src` are
+    the instances `raise never` / `raise whenever the request reaches beyond the end`.) -/
+theorem volume_prefix_per_read (fmt : VolFmt) (img : Img) (wf : img.WF fmt) (um : Bool) (m : Nat)
+    (rd : Nat → Nat → Except Err Bytes) (h : ReadsOf ((writeSingle fmt img).take m) rd) :
+    let r := readSingleG fmt um ((writeSingle fmt img).take m) rd
+    Safe r img.data ∧ (r = .ok img.data → img.data = [] ∨ singleOff fmt img + img.data.length ≤ m) := by
+  intro r
+  have hv := volume_prefix fmt img wf um m false
+  rcases readSingleG_mono h fmt um with h1 | ⟨e, h1⟩
+  · simp only [r, h1]; exact hv
+  · simp only [r, h1]; exact ⟨Or.inr ⟨e, rfl⟩, fun hc => by cases hc⟩
+
+/-- **pair_prefix_per_read.**  Pairs (any data offset) under per-read behaviour of BOTH file objects: header
+    member cut anywhere (image intact): raises or returns exactly the written data; image member (≥ 1 voxel)
+    cut before its end (header intact): always raises. -/
+theorem pair_prefix_per_read (fmt : VolFmt) (img : Img) (hH : fmt.hdrSize = 16 + img.fill.length)
+    (hd : img.data.length < 2 ^ 64) (hp : img.pad.length < 2 ^ 64) (hf : fmt.fixedOff = none) (um : Bool) (m : Nat)
+    (hrd ird : Nat → Nat → Except Err Bytes) :
+    (ReadsOf ((writeHdrFileAt fmt img).take m) hrd → ReadsOf (writeImgFileAt img) ird →
+      Safe (readPairG fmt um ((writeHdrFileAt fmt img).take m) hrd (writeImgFileAt img) ird) img.data) ∧
+    (ReadsOf (writeHdrFileAt fmt img) hrd → ReadsOf ((writeImgFileAt img).take m) ird → img.data ≠ [] →
+      m < (writeImgFileAt img).length →
+      ∃ e, readPairG fmt um (writeHdrFileAt fmt img) hrd ((writeImgFileAt img).take m) ird = .error e) := by
+  constructor
+  · intro hh hi
+    rcases readPairG_mono hh hi fmt um with h1 | ⟨e, h1⟩
+    · rw [h1]; exact pair_prefix_header_at fmt img hH hd hp hf um m false
+    · rw [h1]; exact Or.inr ⟨e, rfl⟩
+  · intro hh hi hne hm
+    rcases readPairG_mono hh hi fmt um with h1 | ⟨e, h1⟩
+    · rw [h1]; exact pair_prefix_image_at fmt img hH hd hp hf hne um m false hm
+    · exact ⟨e, h1⟩
+
+/-- **segments_prefix_per_read.**  `read_segments` under per-read behaviour: raises, or returns exactly the
+    bytes of the complete file at the segments, every non-empty segment lying inside the prefix. -/
+theorem segments_prefix_per_read (file : Bytes) (m : Nat) (segs : List (Nat × Nat))
+    (rd : Nat → Nat → Except Err Bytes) (h : ReadsOf (file.take m) rd) :
+    let r := readSegmentsG rd segs (segsTotal segs)
+    Safe r (sliceBytes file segs) ∧
+    (r = .ok (sliceBytes file segs) → ∀ sg ∈ segs, 0 < sg.2 → sg.1 + sg.2 ≤ m) := by
+  intro r
+  have hv := segments_prefix file m false segs
+  rcases readSegmentsG_mono h segs (segsTotal segs) with h1 | ⟨e, h1⟩
+  · simp only [r, h1]; exact hv
+  · simp only [r, h1]; exact ⟨Or.inr ⟨e, rfl⟩, fun hc => by cases hc⟩
+
+/-- a request function that hands out ONE short read (the header request) and raises on every later request
+    reaching beyond the end: `ReadsOf` holds, the complete file loads, the cut file raises -/
+example : let fmt : VolFmt := ⟨20, 0, false, none, 0⟩
+    let img : Img := { fill := [1, 2, 3, 4], extender := [], exts := [], pad := [], data := [5, 6, 7, 8], footer := [] }
+    let rdOf (b : Bytes) : Nat → Nat → Except Err Bytes := fun pos n =>
+      if pos ≠ 0 ∧ b.length < pos + n then .error .trunc else .ok ((b.drop pos).take n)
+    (∀ b, ReadsOf b (rdOf b)) ∧
+    readSingleG fmt false (writeSingle fmt img) (rdOf (writeSingle fmt img)) = .ok [5, 6, 7, 8] ∧
+    readSingleG fmt false ((writeSingle fmt img).take 22) (rdOf ((writeSingle fmt img).take 22)) = .error .trunc := by
+  refine ⟨?_, by decide +kernel, by decide +kernel⟩
+  intro b pos n
+  by_cases hc : pos ≠ 0 ∧ b.length < pos + n
+  · right; exact ⟨.trunc, by simp [hc]⟩
+  · left; simp [hc]
+
+/-! ### XML: the driver around expat -/
+
+/-- **xml_driver_prefix.**  `XmlParser.parse` → `ParseFile`: blocks of any size `bs` are fed with `final = False`
+    and, at EOF, one closing call `Parse(b'', True)` is made.  For EVERY expat satisfying the contract ("a final
+    call on a document that lacks its root end tag raises" — the one ASSUMPTION about expat; nothing is assumed
+    about non-final calls) every strict prefix of a document ending with its root end tag raises, plain or
+    behind a decompressor.  This — not `xml_prefix`, which merely restates the contract built into `xmlRead` —
+    is the statement about nibabel's side of GIFTI/CIFTI-2 XML truncation safety. -/
+theorem xml_driver_prefix (E : Expat) (doc : Bytes) (hE : E.Contract doc.length) (bs m : Nat) (st : Bool)
+    (hm : m < doc.length) : ∃ e, xmlParseFile E bs ⟨doc.take m, st⟩ = .error e := by
+  unfold xmlParseFile
+  exact xmlFeedLoop_final_prefix E doc.length hE (doc.take m) st bs
+    (by rw [List.length_take]; omega) _ 0 [] rfl (Nat.zero_le _)
+
+/-- **xml_driver_no_final_counterexample** (seeded change C08_6).  The same loop WITHOUT the closing final
+    call: an expat that satisfies the contract accepts a strict prefix (5 of 8 bytes) without any error,
+    whereas `ParseFile` refuses it and accepts the complete document. -/
+theorem xml_driver_no_final_counterexample :
+    (lazyExpat 8).Contract 8 ∧
+    xmlParseNoFinal (lazyExpat 8) 3 (Src.plain ([1, 2, 3, 4, 5, 6, 7, 8].take 5)) = .ok [1, 2, 3, 4, 5] ∧
+    xmlParseFile (lazyExpat 8) 3 (Src.plain ([1, 2, 3, 4, 5, 6, 7, 8].take 5)) = .error .trunc ∧
+    xmlParseFile (lazyExpat 8) 3 (Src.plain [1, 2, 3, 4, 5, 6, 7, 8]) = .ok [1, 2, 3, 4, 5, 6, 7, 8] :=
+  ⟨lazyExpat_contract 8, by decide, by decide, by decide⟩
+
+example : (lazyExpat 8).Contract [1, 2, 3, 4, 5, 6, 7, 8].length ∧ 5 < [1, 2, 3, 4, 5, 6, 7, 8].length :=
+  ⟨lazyExpat_contract 8, by decide⟩
 
 /-! ### compressed access -/
 
